@@ -160,6 +160,18 @@ PairCases(x, y) ==
                 {I2S(TimestampDiff(u, DT(x, 0), DT(y, 0)))}, "timestampdiff-" \o u, x # y)
            : u \in DateUnits }
 
+\* TIMESTAMPDIFF with times of day: the other value is k whole months away (same day of the month), so
+\* the time of day decides whether the last month / year / day is complete.  The tag says whether only
+\* the minutes differ within the same hour (the engine's recorded defect, findings).
+DiffTimes == {37800, 36600, 37830, 35999}          \* 10:30:00  10:10:00  10:30:30  09:59:59
+TsTimeCases(x) ==
+    UNION { { Case("sel", "TIMESTAMPDIFF(" \o u \o ", " \o Q(DTStr(DT(x, t1))) \o ", " \o Q(DTStr(DT(AddMonths(x, k), t2))) \o ")",
+                   {I2S(TimestampDiff(u, DT(x, t1), DT(AddMonths(x, k), t2)))},
+                   "timestampdiff-time-" \o u \o (IF t1 \div 3600 = t2 \div 3600 /\ t1 \div 60 # t2 \div 60 THEN "-samehour" ELSE ""),
+                   t1 # t2)
+              : u \in {"MONTH", "YEAR", "DAY"} }
+            : k \in {k \in {1, -12} : IsDate(AddMonths(x, k)) /\ NoClamp(x, k, "MONTH")}, t1 \in DiffTimes, t2 \in DiffTimes }
+
 Anchor == D(2000, 1, 1)
 InvalidCases(x) ==
     LET s == Q(DateStr(x)) IN
@@ -183,7 +195,7 @@ CasesFor(x) ==
     IF ValidDate(x)
     THEN (IF "unary" \in Ops THEN UnaryCases(x) ELSE {})
          \cup (IF "add" \in Ops THEN AddCases(x) ELSE {})
-         \cup (IF "time" \in Ops THEN TimeCases(x) ELSE {})
+         \cup (IF "time" \in Ops THEN TimeCases(x) \cup TsTimeCases(x) ELSE {})
          \cup (IF "pair" \in Ops THEN UNION {PairCases(x, y) : y \in ValidGrid} ELSE {})
     ELSE (IF "invalid" \in Ops THEN InvalidCases(x) ELSE {})
 
